@@ -83,7 +83,7 @@ func (p *bprover) nilSitesOf() []boundSite {
 				if c.IsInvoke() {
 					add(in, c.Value, "method call on the interface value")
 				} else if _, isB := c.Value.(*ssa.Builtin); !isB && c.StaticCallee() == nil {
-					if _, isMC := c.Value.(*ssa.MakeClosure); !isMC {
+					if _, isMC := c.Value.(*ssa.MakeClosure); !isMC && !fromMapLookup(c.Value) {
 						add(in, c.Value, "call of the function value")
 					}
 				}
@@ -185,12 +185,18 @@ func (br *boundsRun) nonNilResult(f *ssa.Function, idx int, whenOK bool) bool {
 				if call, ok := ret.Results[ei].(*ssa.Call); ok && br.nonNilCall(call, 0, false) {
 					continue
 				}
+				if br.sentinelError(ret.Results[ei]) {
+					continue
+				}
 				// the error is known to be set on this path
 				if br.errKnownSet(p, b, ret.Results[ei]) {
 					continue
 				}
 			}
 			if !p.proveAt(b, p.nonNilOf(ret.Results[idx]).addc(-1)) {
+				if os.Getenv("SFNT_NILDEBUG") != "" {
+					fmt.Printf("nonNilResult %s #%d whenOK=%v: return at %s not shown non-nil (%T)\n", fnName(f), idx, whenOK, br.w.Pos(ret.Pos()), ret.Results[idx])
+				}
 				return false
 			}
 		}
@@ -218,7 +224,7 @@ func (br *boundsRun) errKnownSet(p *bprover, b *ssa.BasicBlock, e ssa.Value) boo
 		} else if k, ok := c.X.(*ssa.Const); ok && k.Value == nil {
 			other = c.Y
 		}
-		if other == nil || other != e {
+		if other == nil || (other != e && p.canonVal(other) != p.canonVal(e)) {
 			continue
 		}
 		if (c.Op == token.NEQ) == g.then {
@@ -293,6 +299,12 @@ func (p *bprover) nilAtomFacts(a atom) []bfact {
 				return []bfact{{e: me.addc(-1), why: "the callee never returns nil"}}
 			}
 		}
+		// the value of a map entry visited by range: some key was stored with it
+		if nx, ok := x.Tuple.(*ssa.Next); ok && !nx.IsString && x.Index == 2 {
+			if rg, ok := nx.Iter.(*ssa.Range); ok && p.br.mapValuesNonNil(rg.X.Type()) {
+				return []bfact{{e: me.addc(-1), why: "every value stored into a map of this type is non-nil"}}
+			}
+		}
 	case *ssa.TypeAssert:
 		if !x.CommaOk && nilable(x.Type()) {
 			// x.(T) to a concrete pointer type can still be a nil pointer
@@ -319,6 +331,10 @@ func (p *bprover) nilAtomFacts(a atom) []bfact {
 		// the value of a captured variable that this closure does not assign
 		if fv, ok := x.addr.(*ssa.FreeVar); ok && p.br.capturedNonNil(p.fn, fv) {
 			return []bfact{{e: me.addc(-1), why: "captured variable that is only assigned non-nil values"}}
+		}
+		// a local variable shared with closures: every store to it, here or in a closure
+		if al := p.cellOfKey(x); al != nil && al.Heap && p.br.cellNonNil(p.fn, al) {
+			return []bfact{{e: me.addc(-1), why: "variable that is only assigned non-nil values, also by the closures that capture it"}}
 		}
 		// an element of a local slice that only ever receives non-nil elements
 		if ia, ok := x.addr.(*ssa.IndexAddr); ok && p.elemsNonNil(ia.X, 0) {
@@ -427,7 +443,17 @@ func RunNilDeref(w *World, r *Report, br *boundsRun, fns []*ssa.Function) {
 		}
 		for _, name := range order {
 			g := groups[name]
-			key := r.MkKey("nilderef", fnName(fn), "uses of "+tempName.ReplaceAllString(g.name, "_"))
+			label := tempName.ReplaceAllString(g.name, "_")
+			if strings.Contains(label, "_") || strings.Contains(label, "*") {
+				// name the operand by the source text of its first use
+				t := br.siteText(*g.first)
+				t = strings.TrimSuffix(t, "(…)")
+				if i := strings.LastIndex(t, "."); i > 0 {
+					t = t[:i]
+				}
+				label = t
+			}
+			key := r.MkKey("nilderef", fnName(fn), "uses of "+label)
 			if g.failed == nil {
 				r.OK("nilderef", key, w.Pos(g.first.ins.Pos()), fmt.Sprintf("not nil at all %d uses", g.n))
 				continue
@@ -843,4 +869,422 @@ func (p *bprover) fieldAddrOfKey(mv *memVal) *ssa.FieldAddr {
 		}
 	}
 	return nil
+}
+
+// fromMapLookup: the function value is the result of a map lookup (rule
+// panicreach owns those calls).
+func fromMapLookup(v ssa.Value) bool {
+	for d := 0; d < 4; d++ {
+		switch x := v.(type) {
+		case *ssa.Lookup:
+			return true
+		case *ssa.Extract:
+			v = x.Tuple
+		case *ssa.Phi:
+			if len(x.Edges) == 0 {
+				return false
+			}
+			v = x.Edges[0]
+		default:
+			return false
+		}
+	}
+	return false
+}
+
+// mapValuesNonNil: the map type is a named type of the module and every
+// update of a map of that type anywhere in the library stores a value shown
+// non-nil where it is stored.
+func (br *boundsRun) mapValuesNonNil(t types.Type) bool {
+	named, ok := t.(*types.Named)
+	if !ok {
+		return false
+	}
+	mt, ok := named.Underlying().(*types.Map)
+	if !ok || !nilable(mt.Elem()) {
+		return false
+	}
+	key := "mapval:" + typeKey(named)
+	if br.fieldMemo == nil {
+		br.fieldMemo = map[string]int{}
+	}
+	switch br.fieldMemo[key] {
+	case 1:
+		return true
+	case 2, 3:
+		return false
+	}
+	br.fieldMemo[key] = 3
+	ok = func() bool {
+		n := 0
+		for _, f := range br.w.LibFuncs() {
+			var pf *bprover
+			for _, b := range f.Blocks {
+				for _, in := range b.Instrs {
+					mu, ok := in.(*ssa.MapUpdate)
+					if !ok {
+						continue
+					}
+					// maps of the underlying type may be converted to the named type later
+					if !types.Identical(mu.Map.Type().Underlying(), named.Underlying()) {
+						continue
+					}
+					n++
+					if pf == nil {
+						pf = br.prover(f)
+					}
+					if !br.nonNilAt(pf, b, mu.Value) {
+						return false
+					}
+				}
+			}
+		}
+		return n > 0
+	}()
+	if ok {
+		br.fieldMemo[key] = 1
+	} else {
+		br.fieldMemo[key] = 2
+	}
+	return ok
+}
+
+// cellNonNil: every store to the local cell, in the function that declares
+// it and in the closures that capture it, stores a non-nil value.
+func (br *boundsRun) cellNonNil(fn *ssa.Function, cell *ssa.Alloc) bool {
+	key := "cell:" + fnName(fn) + ":" + instrID(cell)
+	if br.fieldMemo == nil {
+		br.fieldMemo = map[string]int{}
+	}
+	switch br.fieldMemo[key] {
+	case 1:
+		return true
+	case 2, 3:
+		return false
+	}
+	br.fieldMemo[key] = 3
+	ok := func() bool {
+		fam := append([]*ssa.Function{fn}, fn.AnonFuncs...)
+		stores := 0
+		for _, f := range fam {
+			pf := br.prover(f)
+			for _, b := range f.Blocks {
+				for _, in := range b.Instrs {
+					st, ok := in.(*ssa.Store)
+					if !ok {
+						continue
+					}
+					if f == fn {
+						if st.Addr != ssa.Value(cell) {
+							continue
+						}
+					} else {
+						ffv, ok := st.Addr.(*ssa.FreeVar)
+						if !ok || !br.sameCell(fn, f, ffv, cell) {
+							continue
+						}
+					}
+					stores++
+					if !br.nonNilAt(pf, b, st.Val) {
+						return false
+					}
+				}
+			}
+		}
+		return stores > 0
+	}()
+	if ok {
+		br.fieldMemo[key] = 1
+	} else {
+		br.fieldMemo[key] = 2
+	}
+	return ok
+}
+
+// cellOfKey: the local variable a memory value stands for (key "C@<alloc>#...").
+func (p *bprover) cellOfKey(mv *memVal) *ssa.Alloc {
+	if al, ok := mv.addr.(*ssa.Alloc); ok {
+		return al
+	}
+	if !strings.HasPrefix(mv.key, "C@") {
+		return nil
+	}
+	k := mv.key[2:]
+	if i := strings.Index(k, "#"); i >= 0 {
+		k = k[:i]
+	}
+	for _, b := range p.fn.Blocks {
+		for _, in := range b.Instrs {
+			if al, ok := in.(*ssa.Alloc); ok && valID(al) == k {
+				return al
+			}
+		}
+	}
+	return nil
+}
+
+// sentinelError: the value is loaded from a package-level error variable
+// that is assigned exactly once, in the package initialiser, with a freshly
+// made error.
+func (br *boundsRun) sentinelError(v ssa.Value) bool {
+	for d := 0; d < 3; d++ {
+		switch x := v.(type) {
+		case *ssa.MakeInterface:
+			v = x.X
+			continue
+		case *ssa.ChangeInterface:
+			v = x.X
+			continue
+		case *memVal:
+			if g, ok := x.addr.(*ssa.Global); ok {
+				return br.globalSetOnce(g)
+			}
+			return false
+		case *ssa.UnOp:
+			if g, ok := x.X.(*ssa.Global); ok && x.Op == token.MUL {
+				return br.globalSetOnce(g)
+			}
+			return false
+		}
+		break
+	}
+	return false
+}
+
+func (br *boundsRun) globalSetOnce(g *ssa.Global) bool {
+	key := "global:" + g.String()
+	if br.fieldMemo == nil {
+		br.fieldMemo = map[string]int{}
+	}
+	switch br.fieldMemo[key] {
+	case 1:
+		return true
+	case 2:
+		return false
+	}
+	ok := func() bool {
+		if g.Pkg == nil {
+			return false
+		}
+		stores := 0
+		for _, m := range g.Pkg.Members {
+			f, ok := m.(*ssa.Function)
+			if !ok {
+				continue
+			}
+			all := append([]*ssa.Function{f}, f.AnonFuncs...)
+			for _, h := range all {
+				for _, b := range h.Blocks {
+					for _, in := range b.Instrs {
+						st, ok := in.(*ssa.Store)
+						if !ok || st.Addr != ssa.Value(g) {
+							continue
+						}
+						if f.Name() != "init" {
+							return false
+						}
+						stores++
+						switch val := st.Val.(type) {
+						case *ssa.MakeInterface, *ssa.Alloc:
+						case *ssa.Call:
+							cal := val.Call.StaticCallee()
+							if cal == nil || cal.Pkg == nil {
+								return false
+							}
+							pp := cal.Pkg.Pkg.Path() + "." + cal.Name()
+							if pp != "errors.New" && pp != "fmt.Errorf" && !br.nonNilCall(val, 0, false) {
+								return false
+							}
+						default:
+							return false
+						}
+					}
+				}
+			}
+		}
+		// methods of the package's types may also store to it
+		for _, f := range br.w.LibFuncs() {
+			if f.Pkg != g.Pkg || f.Signature.Recv() == nil {
+				continue
+			}
+			for _, b := range f.Blocks {
+				for _, in := range b.Instrs {
+					if st, ok := in.(*ssa.Store); ok && st.Addr == ssa.Value(g) {
+						return false
+					}
+				}
+			}
+		}
+		return stores == 1
+	}()
+	if ok {
+		br.fieldMemo[key] = 1
+	} else {
+		br.fieldMemo[key] = 2
+	}
+	return ok
+}
+
+// condReadOutlines: sfnt.Read puts a non-nil outlines object into the font
+// it returns: the value stored into the Outlines field of the Font literal
+// wraps either a freshly allocated object or the Outlines field of cff.Read's
+// result, and cff.Read stores a freshly allocated object into that field of
+// the font it returns.
+func condReadOutlines(w *World) func() (bool, string) {
+	return func() (bool, string) {
+		rd := w.Func("sfnt.Read")
+		cr := w.Func("cff.Read")
+		if rd == nil || cr == nil {
+			return false, "sfnt.Read / cff.Read not found"
+		}
+		// (2) cff.Read
+		okCFF := false
+		for _, b := range cr.Blocks {
+			for _, in := range b.Instrs {
+				st, ok := in.(*ssa.Store)
+				if !ok {
+					continue
+				}
+				fa, ok := st.Addr.(*ssa.FieldAddr)
+				if !ok || fieldName(fa) != "Outlines" {
+					continue
+				}
+				if _, isAlloc := fa.X.(*ssa.Alloc); !isAlloc {
+					continue
+				}
+				if _, isAlloc := st.Val.(*ssa.Alloc); isAlloc && (b.Index == 0 || b.Dominates(cr.Blocks[len(cr.Blocks)-1])) {
+					okCFF = true
+				}
+			}
+		}
+		if !okCFF {
+			return false, "cff.Read does not initialise the Outlines field of the font it builds with a fresh object in its entry block"
+		}
+		// (1) sfnt.Read
+		var okVal func(v ssa.Value, d int) bool
+		okVal = func(v ssa.Value, d int) bool {
+			if d > 6 {
+				return false
+			}
+			switch x := v.(type) {
+			case *ssa.Phi:
+				for _, e := range x.Edges {
+					if c, isC := e.(*ssa.Const); isC && c.Value == nil {
+						continue // the declaration's zero value on paths that return an error or assign later
+					}
+					if !okVal(e, d+1) {
+						return false
+					}
+				}
+				return true
+			case *ssa.MakeInterface:
+				return okVal(x.X, d+1)
+			case *ssa.Alloc:
+				return true
+			case *ssa.UnOp:
+				if fa, ok := x.X.(*ssa.FieldAddr); ok && x.Op == token.MUL && fieldName(fa) == "Outlines" {
+					if ex, ok := fa.X.(*ssa.Extract); ok {
+						if c, ok := ex.Tuple.(*ssa.Call); ok && c.Call.StaticCallee() == cr {
+							return true
+						}
+					}
+				}
+			}
+			return false
+		}
+		n := 0
+		for _, b := range rd.Blocks {
+			for _, in := range b.Instrs {
+				st, ok := in.(*ssa.Store)
+				if !ok {
+					continue
+				}
+				fa, ok := st.Addr.(*ssa.FieldAddr)
+				if !ok || fieldName(fa) != "Outlines" || !strings.HasSuffix(fa.X.Type().String(), "sfnt.Font") {
+					continue
+				}
+				n++
+				if !okVal(st.Val, 0) {
+					return false, "sfnt.Read stores a value into Font.Outlines that is not a fresh outlines object or cff.Read's Outlines at " + w.Pos(st.Pos())
+				}
+			}
+		}
+		if n == 0 {
+			return false, "no store to Font.Outlines found in sfnt.Read"
+		}
+		return true, "sfnt.Read stores a fresh glyf.Outlines or cff.Read's freshly allocated Outlines"
+	}
+}
+
+// condReadersMeta: the subtable readers readGsubSubtable / readGposSubtable
+// are only used as the reader argument of readLookupList, which calls its
+// reader with a freshly allocated LookupMetaInfo.
+func condReadersMeta(w *World) func() (bool, string) {
+	return func() (bool, string) {
+		rl := w.Func("opentype/gtab.readLookupList")
+		if rl == nil {
+			return false, "readLookupList not found"
+		}
+		var sr *ssa.Parameter
+		for _, p := range rl.Params {
+			if _, ok := p.Type().Underlying().(*types.Signature); ok {
+				sr = p
+			}
+		}
+		if sr == nil {
+			return false, "readLookupList has no reader parameter"
+		}
+		calls := 0
+		for _, b := range rl.Blocks {
+			for _, in := range b.Instrs {
+				c, ok := in.(*ssa.Call)
+				if !ok || c.Call.Value != ssa.Value(sr) {
+					continue
+				}
+				calls++
+				if len(c.Call.Args) < 3 {
+					return false, "reader called with fewer than three arguments"
+				}
+				if _, isAlloc := c.Call.Args[2].(*ssa.Alloc); !isAlloc {
+					return false, "the reader is called with a meta argument that is not a fresh allocation at " + w.Pos(c.Pos())
+				}
+			}
+		}
+		if calls == 0 {
+			return false, "readLookupList never calls its reader"
+		}
+		// the readers are referenced only as values handed to readLookupList (or called directly with checked arguments)
+		for _, name := range []string{"opentype/gtab.readGsubSubtable", "opentype/gtab.readGposSubtable"} {
+			f := w.Func(name)
+			if f == nil {
+				return false, name + " not found"
+			}
+			if f.Referrers() != nil {
+				for _, ref := range *f.Referrers() {
+					switch x := ref.(type) {
+					case *ssa.Call:
+						if x.Call.Value == ssa.Value(f) {
+							return false, name + " is called directly at " + w.Pos(x.Pos())
+						}
+						if cal := x.Call.StaticCallee(); cal != rl {
+							return false, name + " is handed to " + fnName(cal)
+						}
+					case *ssa.Phi:
+						// sr = readGsubSubtable / readGposSubtable chosen by table type, then handed on
+						if x.Referrers() != nil {
+							for _, r2 := range *x.Referrers() {
+								c2, ok := r2.(*ssa.Call)
+								if !ok || c2.Call.StaticCallee() != rl {
+									return false, name + " flows somewhere other than readLookupList at " + w.Pos(r2.Pos())
+								}
+							}
+						}
+					default:
+						return false, fmt.Sprintf("%s is used by a %T at %s", name, ref, w.Pos(ref.Pos()))
+					}
+				}
+			}
+		}
+		return true, "readers only run inside readLookupList, which hands them a fresh LookupMetaInfo"
+	}
 }
